@@ -50,6 +50,64 @@ func init() {
 		Variant{Prop: "C08", Name: "seed-worker-commit-only-on-success", File: "store/store_delete.go", Expect: "C08.c",
 			Old: "\t\tdefer func() {\n\t\t\tif err := done(); err != nil {\n\t\t\t\tlast.err = errors.Join(last.err, fmt.Errorf(\"committing delete batch: %w\", err))\n\t\t\t}\n\t\t}()",
 			New: "\t\tdefer func() {\n\t\t\tif last.err != nil {\n\t\t\t\treturn\n\t\t\t}\n\t\t\tif err := done(); err != nil {\n\t\t\t\tlast.err = errors.Join(last.err, fmt.Errorf(\"committing delete batch: %w\", err))\n\t\t\t}\n\t\t}()"},
+		// C07 (mutation survivors turned into obligations)
+		Variant{Prop: "C07", Name: "add-drops-every-header-once-a-head-exists", File: ra, Expect: "C07.e",
+			Old: "\tif !head.IsZero() && head.Height() >= h.Height() {", New: "\tif !head.IsZero() || head.Height() >= h.Height() {"},
+		Variant{Prop: "C07", Name: "non-adjacent-header-extends-last-range", File: ra, Expect: "C07.e",
+			Old: "\tif !head.IsZero() && h.Height() == head.Height()+1 {", New: "\tif !head.IsZero() && h.Height() >= head.Height()+1 {"},
+		Variant{Prop: "C07", Name: "first-hands-out-empty-ranges", File: ra, Expect: "C07.e",
+			Old: "\t\tif !out.Empty() {\n\t\t\treturn out, true\n\t\t}", New: "\t\tif out.Empty() {\n\t\t\treturn out, true\n\t\t}"},
+		Variant{Prop: "C07", Name: "empty-inverted", File: ra, Expect: "C07.e",
+			Old: "\treturn len(r.headers) == 0\n", New: "\treturn len(r.headers) != 0\n"},
+		Variant{Prop: "C07", Name: "range-amount-excludes-end", File: ra, Expect: "C07.e",
+			Old: "\tif r.start > end {\n\t\treturn 0\n\t}\n", New: "\tif r.start >= end {\n\t\treturn 0\n\t}\n"},
+		Variant{Prop: "C07", Name: "range-amount-guard-negated", File: ra, Expect: "C07.e",
+			Old: "\tif r.start+amnt >= end {", New: "\tif r.start+amnt < end {"},
+		Variant{Prop: "C07", Name: "benign-range-amount-strict", File: ra,
+			Old: "\tif r.start+amnt >= end {", New: "\tif r.start+amnt > end {"},
+		Variant{Prop: "C07", Name: "head-not-pending-when-store-head-unreadable", File: "sync/syncer_head.go", Expect: "C07.a",
+			Old: "\tif err == nil && storeHead.Height() >= netHead.Height() {", New: "\tif err != nil || storeHead.Height() >= netHead.Height() {"},
+		Variant{Prop: "C07", Name: "head-at-store-height-plus-one-skipped", File: "sync/syncer_head.go", Expect: "C07.a",
+			Old: "\tif err == nil && storeHead.Height() >= netHead.Height() {", New: "\tif err == nil && storeHead.Height()+1 >= netHead.Height() {"},
+		Variant{Prop: "C07", Name: "state-lock-not-released-before-processing", File: sy, Expect: "C07.d",
+			Old: "\ts.state.Start = time.Now()\n\ts.stateLk.Unlock()\n", New: "\ts.state.Start = time.Now()\n"},
+		Variant{Prop: "C07", Name: "ranges-add-lock-dropped", File: ra, Expect: "C07.e",
+			Old: "func (rs *ranges[H]) Add(h H) {\n\trs.lk.Lock()\n\tdefer rs.lk.Unlock()", New: "func (rs *ranges[H]) Add(h H) {\n\tdefer rs.lk.Unlock()"},
+		Variant{Prop: "C07", Name: "gap-request-failure-ignored", File: sy, Expect: "C07.c",
+			Old: "\t\t\tif err = s.requestHeaders(ctx, fromHead, to); err != nil {\n\t\t\t\treturn err\n\t\t\t}", New: "\t\t\tif err = s.requestHeaders(ctx, fromHead, to); err == nil {\n\t\t\t\treturn err\n\t\t\t}"},
+		Variant{Prop: "C07", Name: "empty-cached-range-indexed", File: sy, Expect: "C07.c",
+			Old: "\t\theaders := headersRange.Get(to)\n\t\tif len(headers) == 0 {\n\t\t\tbreak\n\t\t}", New: "\t\theaders := headersRange.Get(to)"},
+
+		// C14
+		Variant{Prop: "C14", Name: "seed-recovered-panic-assigned-to-local", File: "store/store_delete.go", Expect: "C14.a",
+			Old:  "func(ctx context.Context, height uint64) (rerr error) {\n\t\tdefer func() {\n\t\t\terr := recover()\n\t\t\tif err != nil {\n\t\t\t\trerr = fmt.Errorf(",
+			New:  "func(ctx context.Context, height uint64) error {\n\t\tvar rerr error\n\t\tdefer func() {\n\t\t\terr := recover()\n\t\t\tif err != nil {\n\t\t\t\trerr = fmt.Errorf(",
+			More: []Edit{{File: "store/store_delete.go", Old: "\t\treturn fn(ctx, height)\n\t})", New: "\t\trerr = fn(ctx, height)\n\t\treturn rerr\n\t})"}}},
+		Variant{Prop: "C14", Name: "seed-context-check-between-handlers-and-removal", File: "store/store_delete.go", Expect: "C14.b",
+			Old: "\tif err := s.ds.Delete(ctx, hashKey(hash)); err != nil {", New: "\tif ctx.Err() != nil {\n\t\treturn context.Cause(ctx)\n\t}\n\tif err := s.ds.Delete(ctx, hashKey(hash)); err != nil {"},
+		Variant{Prop: "C14", Name: "missing-header-classified-by-foreign-sentinel", File: "store/store_delete.go", Expect: "C14.b",
+			Old: "\t\tif errors.Is(err, errHeaderMissing) {\n\t\t\tmissing++", New: "\t\tif errors.Is(err, datastore.ErrNotFound) {\n\t\t\tmissing++"},
+		Variant{Prop: "C14", Name: "worker-classifies-by-foreign-sentinel", File: "store/store_delete.go", Expect: "C14.b",
+			Old: "\t\t\tif errors.Is(last.err, errHeaderMissing) {", New: "\t\t\tif errors.Is(last.err, datastore.ErrNotFound) {"},
+		Variant{Prop: "C14", Name: "ondelete-lock-never-released", File: "store/store_delete.go", Expect: "C14.a",
+			Old: "\ts.onDeleteMu.Lock()\n\tdefer s.onDeleteMu.Unlock()\n\n\ts.onDelete = append(", New: "\ts.onDeleteMu.Lock()\n\n\ts.onDelete = append("},
+
+		// C16
+		Variant{Prop: "C16", Name: "seed-window-walk-direction-inverted", File: "sync/syncer_tail.go", Expect: "C16.c",
+			Old: "\t\tif expectedTailTime.Compare(newTail.Time().UTC()) <= 0 {", New: "\t\tif !newTail.Time().UTC().After(expectedTailTime) {"},
+		Variant{Prop: "C16", Name: "benign-window-walk-not-before", File: "sync/syncer_tail.go",
+			Old: "\t\tif expectedTailTime.Compare(newTail.Time().UTC()) <= 0 {", New: "\t\tif !newTail.Time().Before(expectedTailTime) {"},
+		Variant{Prop: "C16", Name: "seed-young-chain-guard-off-by-one", File: "sync/syncer_tail.go", Expect: "C16.c",
+			Old: "\tif headersToRetain >= head.Height() {", New: "\tif headersToRetain > head.Height() {"},
+		Variant{Prop: "C16", Name: "close-estimate-not-clamped-to-head", File: "sync/syncer_tail.go", Expect: "C16.c",
+			Old: "\t\tif estimatedTailHeight > head.Height() {", New: "\t\tif estimatedTailHeight > head.Height() && false {"},
+		Variant{Prop: "C16", Name: "benign-close-estimate-clamped-by-min", File: "sync/syncer_tail.go",
+			Old: "\t\testimatedTailHeight = oldTail.Height() + headersToStore\n\t\tif estimatedTailHeight > head.Height() {", New: "\t\testimatedTailHeight = min(oldTail.Height()+headersToStore, head.Height())\n\t\tif estimatedTailHeight > head.Height() {"},
+
+		// C15.f / C03.b: the bifurcation cannot be bypassed
+		Variant{Prop: "C15", Name: "seed-known-header-from-bifurcation-swallowed", File: "sync/syncer_head.go", Expect: "C15.f",
+			Old: "\t\terr = s.incomingNetworkHead(ctx, newHead)\n", New: "\t\terr = s.incomingNetworkHead(ctx, newHead)\n\t\tif errors.Is(err, header.ErrKnownHeader) {\n\t\t\terr = nil\n\t\t}\n"},
+
 		Variant{Prop: "C08", Name: "benign-batch-commit-via-local", File: st,
 			Old: "\treturn contextds.WithWrite(ctx, batch), func() error {\n\t\treturn batch.Commit(ctx)\n\t}",
 			New: "\treturn contextds.WithWrite(ctx, batch), func() error {\n\t\terr := batch.Commit(ctx)\n\t\treturn err\n\t}"},
